@@ -689,83 +689,7 @@ func ptRest(c *Ctx, fn *ssa.Function, in *ssa.Parameter, full, dateOnly *ssa.Cal
 	}
 
 	// ---- TZ-KEY
-	c.Rule("TZ-KEY", "the zone cache returns, for an offset, a fixed zone built from that same offset", 1)
-	{
-		// the zone lookup: the module function (or method) of the time package that takes one integer, the
-		// offset, and returns a *time.Location
-		var gt *ssa.Function
-		var off *ssa.Parameter
-		for _, f := range P.ModuleFuncs() {
-			if f.Pkg != P.Time || f.Parent() != nil || f.Signature.Results().Len() != 1 || !strings.HasSuffix(typeKey(f.Signature.Results().At(0).Type()), "time.Location") {
-				continue
-			}
-			var ints []*ssa.Parameter
-			for i, p := range f.Params {
-				if i == 0 && f.Signature.Recv() != nil {
-					continue
-				}
-				if b, ok := p.Type().Underlying().(*types.Basic); ok && b.Info()&types.IsInteger != 0 {
-					ints = append(ints, p)
-				} else {
-					ints = append(ints, nil)
-				}
-			}
-			if len(ints) == 1 && ints[0] != nil {
-				// prefer the function that holds the cache (a map lookup) over thin wrappers of it
-				hasLookup := false
-				for _, b := range f.Blocks {
-					for _, in := range b.Instrs {
-						if _, ok := in.(*ssa.Lookup); ok {
-							hasLookup = true
-						}
-					}
-				}
-				if gt == nil || hasLookup {
-					gt, off = f, ints[0]
-				}
-			}
-		}
-		if c.Anchor(gt != nil && off != nil, "time.getTimezone(offset)") {
-			okKey, okZone, okStore := false, false, false
-			var fz *ssa.Call
-			for _, b := range gt.Blocks {
-				for _, ins := range b.Instrs {
-					switch x := ins.(type) {
-					case *ssa.Lookup:
-						if x.Index == ssa.Value(off) {
-							okKey = true
-						}
-					case *ssa.Call:
-						if sc := x.Call.StaticCallee(); sc != nil && qualName(sc) == "time.FixedZone" {
-							fz = x
-							okZone = x.Call.Args[1] == ssa.Value(off)
-						}
-					case *ssa.MapUpdate:
-						okStore = x.Key == ssa.Value(off) && fz != nil && x.Value == ssa.Value(fz)
-					}
-				}
-			}
-			// what is returned is the looked-up value or the freshly built zone
-			okRet := true
-			for _, r := range returnsOf(gt) {
-				for _, s := range phiSources(resolvedResults(r)[0]) {
-					switch y := s.(type) {
-					case *ssa.Extract:
-						if _, isLk := y.Tuple.(*ssa.Lookup); !isLk {
-							okRet = false
-						}
-					case *ssa.Call:
-						if y != fz {
-							okRet = false
-						}
-					default:
-						okRet = false
-					}
-				}
-			}
-			c.Check(okKey && okZone && okStore && okRet, fnKey(gt)+"/key", P.pos(gt.Pos()), "looked up, built and stored under the same offset parameter", "the zone cache is not keyed by the offset it builds the zone from")
-		}
-	}
+	ruleTZKey(c)
 
 	// ---- FMT-NANO
 	c.Rule("FMT-NANO", "times are written with the full-precision RFC 3339 layout, so formatting then parsing can be the identity", 1)
@@ -853,6 +777,111 @@ func reachUnderCase(start *ssa.BasicBlock, cv ssa.Value, k int64) map[[2]int]boo
 	}
 	visit(start)
 	return edges
+}
+
+// ---------- TZ-KEY
+
+// ruleTZKey: the zone cache is a function of its key. The cache is found as the function of the time package
+// that returns a *time.Location and looks one up in a package-level map; whatever that function stores in the
+// map it stores under the key it looked up, and the zone it stores is built from that key and constants alone
+// (name and offset). A cached zone that also depends on anything else the caller passed — a display name
+// taken from the text being parsed — makes what one timestamp decodes to depend on which timestamp with the
+// same offset was parsed first, by whichever goroutine.
+func ruleTZKey(c *Ctx) {
+	c.Rule("TZ-KEY", "the zone cache returns, for an offset, a fixed zone built from that same offset and nothing else the caller passed", 1)
+	P := c.P
+	var gt *ssa.Function
+	var lk *ssa.Lookup
+	for _, f := range P.ModuleFuncs() {
+		if f.Pkg != P.Time || f.Parent() != nil || f.Signature.Results().Len() != 1 || !strings.HasSuffix(typeKey(f.Signature.Results().At(0).Type()), "time.Location") {
+			continue
+		}
+		for _, b := range f.Blocks {
+			for _, in := range b.Instrs {
+				if x, ok := in.(*ssa.Lookup); ok && gt == nil {
+					if _, isMap := x.X.Type().Underlying().(*types.Map); isMap {
+						gt, lk = f, x
+					}
+				}
+			}
+		}
+	}
+	if !c.Anchor(gt != nil && lk != nil, "time.getTimezone(offset)") {
+		return
+	}
+	key := lk.Index
+	// a value computed from the key and constants alone
+	var ofKey func(v ssa.Value, d int) bool
+	ofKey = func(v ssa.Value, d int) bool {
+		if v == key {
+			return true
+		}
+		if d > 8 {
+			return false
+		}
+		switch x := v.(type) {
+		case *ssa.Const:
+			return true
+		case *ssa.Convert:
+			return ofKey(x.X, d+1)
+		case *ssa.ChangeType:
+			return ofKey(x.X, d+1)
+		case *ssa.BinOp:
+			return ofKey(x.X, d+1) && ofKey(x.Y, d+1)
+		case *ssa.UnOp:
+			return x.Op != token.MUL && x.Op != token.ARROW && ofKey(x.X, d+1)
+		}
+		return false
+	}
+	okZone, okStore, why := false, false, ""
+	var fz *ssa.Call
+	for _, b := range gt.Blocks {
+		for _, ins := range b.Instrs {
+			switch x := ins.(type) {
+			case *ssa.Call:
+				if sc := x.Call.StaticCallee(); sc != nil && qualName(sc) == "time.FixedZone" {
+					fz = x
+					okZone = x.Call.Args[1] == key || (ofKey(x.Call.Args[1], 0) && sameValue(stripConv(x.Call.Args[1]), stripConv(key)))
+					if !okZone {
+						why = "the zone is not built for the offset it is cached under"
+					} else if !ofKey(x.Call.Args[0], 0) {
+						okZone = false
+						why = "the cached zone's name is not a constant or a function of the key: which name an offset's zone carries depends on the first caller to ask for that offset"
+					}
+				}
+			case *ssa.MapUpdate:
+				okStore = sameValue(x.Key, key) && fz != nil && x.Value == ssa.Value(fz)
+				if !okStore {
+					why = "what is stored in the zone cache is not the zone just built, under the key looked up"
+				}
+			}
+		}
+	}
+	// what is returned is the looked-up value or the freshly built zone
+	okRet := true
+	for _, r := range returnsOf(gt) {
+		for _, s := range phiSources(resolvedResults(r)[0]) {
+			switch y := s.(type) {
+			case *ssa.Extract:
+				if _, isLk := y.Tuple.(*ssa.Lookup); !isLk {
+					okRet = false
+				}
+			case *ssa.Call:
+				if y != fz {
+					okRet = false
+				}
+			default:
+				okRet = false
+			}
+		}
+	}
+	if !okRet && why == "" {
+		why = "what the zone lookup returns is neither the cached zone nor the zone it just built"
+	}
+	if why == "" {
+		why = "the zone cache is not keyed by the offset it builds the zone from"
+	}
+	c.Check(okZone && okStore && okRet, fnKey(gt)+"/key", P.pos(gt.Pos()), "looked up, built (from the key and constants alone) and stored under the same key", why)
 }
 
 // ---------- PT-PURE
